@@ -9,6 +9,9 @@ list=()
 for d in seeded/*/; do
   n=$(basename "$d"); [ "$n" = regressions ] && continue
   [ -n "$filter" ] && [[ "$n" != *$filter* ]] && continue
+  # a change that a later fix: commit made harmless (the property holds with it) is listed, not run
+  masked=$(python3 -c "import json;print(json.load(open('$d/meta.json')).get('masked_since','')[:7])")
+  if [ -n "$masked" ]; then echo "$n caught=masked (no longer breaks the property since /repo $masked, see meta.json)"; continue; fi
   checks=$(python3 -c "import json;print(' '.join(json.load(open('$d/meta.json')).get('detected_by') or []))")
   [ -z "$checks" ] && checks=${n%%-*}
   list+=("$n|$d/patch.diff|$checks")
